@@ -62,6 +62,10 @@ def gen_stress(rng, tier):
         for _ in range(reps):
             cases.append(["stress evsys=%s threads=%d iters=%d seed=%d reinit=%d setservers=1" % (
                 ev, rng.choice([2, 4, 6, 8]), 250 if tier == "quick" else 1500, rng.randint(1, 10 ** 6), rng.choice([0, 1, 1]))])
+    # the application passes no flags: every reload re-applies the flags of the system configuration (options use-vc)
+    for _ in range(reps):
+        cases.append(["stress evsys=%s threads=%d iters=%d seed=%d reinit=1 setservers=1 sysflags=1" % (
+            rng.choice(BACKENDS), rng.choice([4, 6]), 250 if tier == "quick" else 1500, rng.randint(1, 10 ** 6))])
     return cases
 
 
